@@ -140,6 +140,8 @@ theorem load_validate_code_order : Generated.loadValidateShape =
      ("Config.validate", ["_validate"]),
      ("Schema._validate", ["if[not self._is_feature_enabled(config)]", "return", "end", "let[ignore_types=(VirtualFieldMixin, InstanceMethodFieldMixin)]", "loop[self._fields.values()]", "if[isinstance(field, ignore_types)]", "continue", "end", "try", "_validate_field", "except:ValidationError", "if[not collect_errors]", "raise", "end", "append", "except:Exception", "if[not collect_errors]", "raise:exc", "end", "append", "end", "end", "loop[self._validators]", "try", "validator", "except:ValidationError", "if[not collect_errors]", "raise", "end", "append", "except:Exception", "if[not collect_errors]", "raise:exc", "end", "append", "end", "end"]),
      ("Schema._validate_field", ["__getval__", "if[isinstance(field, Field)]", "validate", "else", "if[isinstance(val, Config)]", "validate", "end", "end"]),
-     ("Field.validate", ["if[self.required and value is None]", "raise:ValueError", "end", "if[value is None]", "return", "end", "_validate", "if[self.validator]", "validator", "end"])] := by decide
+     ("Field.validate", ["if[self.required and value is None]", "raise:ValueError", "end", "if[value is None]", "return", "end", "_validate", "if[self.validator]", "validator", "end"]),
+     ("Schema._is_feature_enabled", ["return all((field.is_feature_enabled(cfg) for field in self._feature_flag_fields))"]),
+     ("FeatureFlagField.is_feature_enabled", ["return self.__getval__(cfg)"])] := by decide
 
 end Cinco.C11b
